@@ -49,6 +49,141 @@ def mask_table(mod, name):
     return out, arr, ret[0]
 
 
+# settings whose value cannot change the result (reason per entry)
+F5_EXEMPT = {'verb': 'verbosity: only selects what is printed'}
+
+
+def rule_F5(ctx, mod):
+    """Cache coherence of class Fourier.  Attributes stored by a method M
+    from values computed out of other settings (`_freq_req`, `_ft`, `_ftarg`
+    in _check_time) are caches; every writer of a setting they were computed
+    from must re-run M afterwards, with arguments under which every cached
+    attribute is stored again.  Properties computed on access are always
+    fresh and need nothing."""
+    from ..core.cfg import CFG
+    cls = mod.cls('Fourier')
+    meths = [n for n in cls.body if isinstance(n, ast.FunctionDef)]
+    # property name -> underlying attribute (getter `return self._x`)
+    under = {}
+    for m in meths:
+        if 'property' in au.decorator_names(m):
+            rets = [n for n in ast.walk(m) if isinstance(n, ast.Return)]
+            if len(rets) == 1 and isinstance(rets[0].value, ast.Attribute) \
+                    and ast.unparse(rets[0].value.value) == 'self':
+                under[m.name] = rets[0].value.attr
+    ctx.anchor({'time', 'signal', 'fmin', 'fmax', 'ft', 'ftarg'} <=
+               set(under), 'Fourier getters of stored settings')
+
+    def self_reads(e):
+        out = set()
+        for x in ast.walk(e):
+            if isinstance(x, ast.Attribute) and isinstance(x.value, ast.Name) \
+                    and x.value.id == 'self' and isinstance(x.ctx, ast.Load):
+                out.add(under.get(x.attr, x.attr))
+        return out
+
+    # caches: stores `self._d = <value>` whose value (through locals of the
+    # same method) reads other settings
+    caches = {}      # (method name, attr) -> (store node, deps)
+    for m in meths:
+        if m.name == '__init__':
+            continue
+        env = {}
+        for st in ast.walk(m):
+            if isinstance(st, ast.Assign):
+                deps = self_reads(st.value)
+                for x in ast.walk(st.value):
+                    if isinstance(x, ast.Name) and x.id in env:
+                        deps |= env[x.id]
+                for t in st.targets:
+                    for y in (t.elts if isinstance(t, ast.Tuple) else [t]):
+                        if isinstance(y, ast.Name):
+                            env[y.id] = env.get(y.id, set()) | deps
+        for st in ast.walk(m):
+            if isinstance(st, ast.Assign) and len(st.targets) == 1 and \
+                    isinstance(st.targets[0], ast.Attribute) and \
+                    ast.unparse(st.targets[0].value) == 'self':
+                d = st.targets[0].attr
+                deps = self_reads(st.value)
+                for x in ast.walk(st.value):
+                    if isinstance(x, ast.Name) and x.id in env:
+                        deps |= env[x.id]
+                deps = {u for u in deps if u not in F5_EXEMPT and
+                        u in set(under.values())}
+                if deps - {d}:
+                    caches[(m.name, d)] = (st, deps)
+    ctx.anchor(len(caches) >= 3, 'cached attributes of Fourier '
+               f'({sorted(caches)})')
+    by_method = {}
+    for (mn, d), (st, deps) in caches.items():
+        by_method.setdefault(mn, []).append((d, st, deps))
+
+    def executes(store, M, call):
+        """Does `store` in M run for this call (constant arguments)?"""
+        ps = au.params(M)[1:]
+        bound = {}
+        for i, a in enumerate(call.args):
+            if i < len(ps) and isinstance(a, ast.Constant):
+                bound[ps[i]] = a.value
+        for k in call.keywords:
+            if isinstance(k.value, ast.Constant):
+                bound[k.arg] = k.value.value
+        for t, pol in au.guards_of(store, M):
+            if isinstance(t, ast.Name) and t.id in bound:
+                if bool(bound[t.id]) != pol:
+                    return False
+            if isinstance(t, ast.UnaryOp) and isinstance(t.op, ast.Not) and \
+                    isinstance(t.operand, ast.Name) and t.operand.id in bound:
+                if (not bound[t.operand.id]) != pol:
+                    return False
+        return True
+
+    n = 0
+    for W in meths:
+        for st in ast.walk(W):
+            if not (isinstance(st, ast.Assign) and any(
+                    isinstance(t, ast.Attribute) and
+                    ast.unparse(t.value) == 'self' for t in st.targets)):
+                continue
+            for t in st.targets:
+                if not (isinstance(t, ast.Attribute) and
+                        ast.unparse(t.value) == 'self'):
+                    continue
+                u = t.attr
+                for mn, items in by_method.items():
+                    if mn == W.name:
+                        continue
+                    M = [m for m in meths if m.name == mn][0]
+                    need = [(d, s_) for d, s_, deps in items if u in deps
+                            and d != u or (u in deps and d == u and False)]
+                    if not need:
+                        continue
+                    n += 1
+                    cfg = CFG(W)
+                    sn = cfg.node_of(st)
+                    calls = [c for c in ast.walk(W) if isinstance(c, ast.Call)
+                             and ast.unparse(c.func) == f'self.{mn}']
+                    good = [c for c in calls if all(
+                        executes(s_, M, c) for d, s_ in need)]
+                    gnodes = [cfg.node_of(au.enclosing_stmt(c)) for c in good]
+                    # every path from the store to the exit passes a good call
+                    path = cfg.reachable_between(sn, cfg.exit, avoid=gnodes)
+                    ok = cfg.exit not in path
+                    who = W.name + ('.setter' if any(
+                        d_.endswith('.setter')
+                        for d_ in au.decorator_names(W)) else '')
+                    ctx.check('C20.F5.coherent', f'Fourier.{who}: store of '
+                              f'{u} refreshes {sorted(d for d, _ in need)}',
+                              ok, f'`{au.stext(st)}` changes a setting that '
+                              f'{mn}() used to compute '
+                              f'{sorted(d for d, _ in need)}, but {mn}() is '
+                              'not re-run (with all of them stored again) '
+                              'afterwards: the cached values stay those of '
+                              'the old setting', ctx.where(mod, st),
+                              sample={'setting': u, 'recompute': mn})
+    ctx.need(n >= 4, f'only {n} writers of cached-from settings')
+
+
 def run(ctx):
     ctx.explanation = (
         'The three frequency masks are lifted as predicates of one frequency '
@@ -61,6 +196,7 @@ def run(ctx):
     ctx.assumptions = ['spline / PCHIP values are not decided',
                        'empymod.model.tem is the reference transform']
     mod = ctx.repo.mod(TIME)
+    rule_F5(ctx, mod)
     ext, a1, n1 = mask_table(mod, 'ifreq_extrapolate')
     itp, a2, n2 = mask_table(mod, 'ifreq_interpolate')
     cmp_, a3, n3 = mask_table(mod, 'ifreq_compute')
